@@ -32,7 +32,10 @@ def mc(ctx, name, cs, liveness=False, timeout=3000):
             f.write("SPECIFICATION LiveSpec\nPROPERTY C13_Live\nCHECK_DEADLOCK FALSE\nCONSTANTS\n" + "".join(" %s = %s\n" % kv for kv in cs.items()))
     else:
         path = _cfg(ctx, "LocalPool_mc_head.cfg", cs)
-    res = tlc.run_tlc("LocalPool", path, workers=16, timeout=timeout, xmx="10g", scratch=ctx.scratch)
+    res = tlc.run_tlc("LocalPool", path, workers=16, timeout=timeout, xmx="10g", scratch=ctx.scratch, coverage=not liveness)
+    dead = [a for a, (d, t) in res.coverage.items() if t == 0 and a not in ("Init",)]
+    if dead:
+        raise Machinery("LocalPool design check %s: actions never taken: %s" % (name, dead))
     if res.violated:
         raise Machinery("LocalPool design check %s violated %s:\n%s" % (name, res.violated, res.errtext))
     ctx.add_design("LocalPool:" + name, res, json.dumps(cs))
